@@ -2,6 +2,7 @@ package main
 
 import (
 	"fmt"
+	"go/token"
 	"go/types"
 	"sort"
 	"strings"
@@ -185,6 +186,13 @@ func ruleTmpDistinct(w *World, r *RuleResult) {
 				key := fmt.Sprintf("%s | big.%s pointer-compared argument", name, m)
 				arg := c.Common().Args[pc[0]]
 				other := c.Common().Args[pc[1]]
+				// the view may be chosen among several (a φ): what counts is the one that is passed when the
+				// two BigInts are the same object
+				if phi, isPhi := arg.(*ssa.Phi); isPhi {
+					if sel, ok := w.phiUnderAliasing(f, phi); ok {
+						arg = sel
+					}
+				}
 				ic, isCall := arg.(*ssa.Call)
 				if !isCall {
 					r.bad(key, w.instrPos(c), "argument compared by pointer inside math/big is not produced by an inner*OrAlias helper")
@@ -400,29 +408,36 @@ func ruleOperandsReadOnly(w *World, r *RuleResult) {
 		if !hasOperand {
 			continue
 		}
-		p := w.newProv(f, nil)
 		viol := map[int][]string{}
-		for _, b := range f.Blocks {
-			for _, in := range b.Instrs {
-				for _, e := range w.instrEffects(p, in, nil) {
-					if !e.Write || e.Loc.Root.Kind != RParam {
-						continue
-					}
-					i := e.Loc.Root.Param
-					if roles[i] != RoleOperand {
-						continue
-					}
-					// a write through a callee's own operand parameter is
-					// reported in that callee
-					if ci, ok := in.(ssa.CallInstruction); ok {
-						if g := callee(ci); g != nil && w.inPkg(g) {
-							gr := w.roles(g)
-							if e.Arg < len(gr) && gr[e.Arg] == RoleOperand {
-								continue
+		for oi := range f.Params {
+			if roles[oi] != RoleOperand {
+				continue
+			}
+			// an operand that is the same object as a destination/out parameter is a destination: the branches
+			// taken only then (p_operand == p_out) are pruned for this operand
+			p := w.provOperandDistinct(f, oi, roles)
+			for _, b := range f.Blocks {
+				for _, in := range b.Instrs {
+					for _, e := range w.instrEffects(p, in, nil) {
+						if !e.Write || e.Loc.Root.Kind != RParam {
+							continue
+						}
+						i := e.Loc.Root.Param
+						if i != oi {
+							continue
+						}
+						// a write through a callee's own operand parameter is
+						// reported in that callee
+						if ci, ok := in.(ssa.CallInstruction); ok {
+							if g := callee(ci); g != nil && w.inPkg(g) {
+								gr := w.roles(g)
+								if e.Arg < len(gr) && gr[e.Arg] == RoleOperand {
+									continue
+								}
 							}
 						}
+						viol[i] = append(viol[i], w.effectString(e))
 					}
-					viol[i] = append(viol[i], w.effectString(e))
 				}
 			}
 		}
@@ -715,4 +730,237 @@ func (w *World) mayAliasAtSomeCall(f *ssa.Function, d, x int, depth int) bool {
 		}
 	}
 	return false
+}
+
+// phiUnderAliasing: phi selects among views of BigInt parameters; one of its edges is an alias-aware helper
+// call recv.innerOr…Alias(tmp, a, ai). Under the assumption recv == a (edges contradicting it pruned), if
+// exactly one distinct value remains on the live edges it is returned.
+func (w *World) phiUnderAliasing(f *ssa.Function, phi *ssa.Phi) (ssa.Value, bool) {
+	var helper *ssa.Call
+	var walk func(v ssa.Value, d int)
+	walk = func(v ssa.Value, d int) {
+		if d > 4 || helper != nil {
+			return
+		}
+		switch x := v.(type) {
+		case *ssa.Phi:
+			for _, e := range x.Edges {
+				walk(e, d+1)
+			}
+		case *ssa.Call:
+			if n := w.calleeName(x); (n == "(*BigInt).innerOrAlias" || n == "(*BigInt).innerOrNilOrAlias") && len(x.Common().Args) > 3 {
+				helper = x
+			}
+		}
+	}
+	walk(phi, 0)
+	if helper == nil {
+		return nil, false
+	}
+	rp, ok1 := helper.Common().Args[0].(*ssa.Parameter)
+	ap, ok2 := helper.Common().Args[2].(*ssa.Parameter)
+	if !ok1 || !ok2 {
+		return nil, false
+	}
+	ri, ai := -1, -1
+	for i, q := range f.Params {
+		if q == rp {
+			ri = i
+		}
+		if q == ap {
+			ai = i
+		}
+	}
+	if ri < 0 || ai < 0 {
+		return nil, false
+	}
+	c := &flowCtx{w: w, k: flowKey{f, ri, ai}, f: f}
+	c.computeDead()
+	live := map[ssa.Value]bool{}
+	var collect func(v ssa.Value, d int)
+	collect = func(v ssa.Value, d int) {
+		x, isPhi := v.(*ssa.Phi)
+		if !isPhi || d > 4 {
+			live[v] = true
+			return
+		}
+		for i, e := range x.Edges {
+			pred := x.Block().Preds[i]
+			deadEdge := c.dead[pred]
+			for si, s := range pred.Succs {
+				if s == x.Block() && c.edgeDead(pred, si) {
+					deadEdge = true
+				}
+			}
+			if !deadEdge {
+				collect(e, d+1)
+			}
+		}
+	}
+	collect(phi, 0)
+	if len(live) != 1 {
+		return nil, false
+	}
+	for v := range live {
+		return v, true
+	}
+	return nil, false
+}
+
+// provOperandDistinct: provenance for f in which the edges taken only when operand parameter oi is the
+// same object as a non-operand (destination / out) parameter are dead.
+func (w *World) provOperandDistinct(f *ssa.Function, oi int, roles []Role) *provCtx {
+	dead, deadE := deadAssumingDistinct(f, func(i, j int) bool {
+		other := -1
+		if i == oi {
+			other = j
+		} else if j == oi {
+			other = i
+		}
+		return other >= 0 && other < len(roles) && roles[other] != RoleOperand
+	})
+	p := w.newProv(f, dead)
+	p.deadEdgeFn = func(from, to *ssa.BasicBlock) bool {
+		if dead[from] {
+			return true
+		}
+		for si, s := range from.Succs {
+			if s == to && !deadE[[2]int{from.Index, si}] {
+				return false
+			}
+		}
+		return true
+	}
+	return p
+}
+
+// deadAssumingDistinct: the blocks and edges of f that are dead when the parameter pairs selected by
+// distinct(i, j) are different objects (the equal edge of every p_i == p_j / p_i != p_j test is dead).
+func deadAssumingDistinct(f *ssa.Function, distinct func(i, j int) bool) (map[*ssa.BasicBlock]bool, map[[2]int]bool) {
+	pidx := func(v ssa.Value) int {
+		for i, q := range f.Params {
+			if ssa.Value(q) == v {
+				return i
+			}
+		}
+		return -1
+	}
+	deadE := map[[2]int]bool{}
+	for _, b := range f.Blocks {
+		if len(b.Instrs) == 0 {
+			continue
+		}
+		iff, ok := b.Instrs[len(b.Instrs)-1].(*ssa.If)
+		if !ok {
+			continue
+		}
+		bo, ok := iff.Cond.(*ssa.BinOp)
+		if !ok || (bo.Op != token.EQL && bo.Op != token.NEQ) {
+			continue
+		}
+		x, y := pidx(bo.X), pidx(bo.Y)
+		if x < 0 || y < 0 || !distinct(x, y) {
+			continue
+		}
+		if bo.Op == token.EQL {
+			deadE[[2]int{b.Index, 0}] = true
+		} else {
+			deadE[[2]int{b.Index, 1}] = true
+		}
+	}
+	reach := map[*ssa.BasicBlock]bool{}
+	var visit func(b *ssa.BasicBlock)
+	visit = func(b *ssa.BasicBlock) {
+		if reach[b] {
+			return
+		}
+		reach[b] = true
+		for si, s := range b.Succs {
+			if !deadE[[2]int{b.Index, si}] {
+				visit(s)
+			}
+		}
+	}
+	if len(f.Blocks) > 0 {
+		visit(f.Blocks[0])
+	}
+	dead := map[*ssa.BasicBlock]bool{}
+	for _, b := range f.Blocks {
+		if !reach[b] {
+			dead[b] = true
+		}
+	}
+	return dead, deadE
+}
+
+// deadUnder: dead blocks/edges of f when decide settles the pointer comparisons it knows about.
+func deadUnder(f *ssa.Function, decide func(bo *ssa.BinOp) (bool, bool)) (map[*ssa.BasicBlock]bool, map[[2]int]bool) {
+	deadE := map[[2]int]bool{}
+	for _, b := range f.Blocks {
+		if len(b.Instrs) == 0 {
+			continue
+		}
+		iff, ok := b.Instrs[len(b.Instrs)-1].(*ssa.If)
+		if !ok {
+			continue
+		}
+		bo, ok := iff.Cond.(*ssa.BinOp)
+		if !ok || (bo.Op != token.EQL && bo.Op != token.NEQ) {
+			continue
+		}
+		val, known := decide(bo)
+		if !known {
+			continue
+		}
+		if val {
+			deadE[[2]int{b.Index, 1}] = true
+		} else {
+			deadE[[2]int{b.Index, 0}] = true
+		}
+	}
+	reach := map[*ssa.BasicBlock]bool{}
+	var visit func(b *ssa.BasicBlock)
+	visit = func(b *ssa.BasicBlock) {
+		if reach[b] {
+			return
+		}
+		reach[b] = true
+		for si, s := range b.Succs {
+			if !deadE[[2]int{b.Index, si}] {
+				visit(s)
+			}
+		}
+	}
+	if len(f.Blocks) > 0 {
+		visit(f.Blocks[0])
+	}
+	dead := map[*ssa.BasicBlock]bool{}
+	for _, b := range f.Blocks {
+		if !reach[b] {
+			dead[b] = true
+		}
+	}
+	return dead, deadE
+}
+
+// liveLeaves: the non-φ values v can take on the edges that are not dead.
+func liveLeaves(v ssa.Value, dead map[*ssa.BasicBlock]bool, deadE map[[2]int]bool, depth int) []ssa.Value {
+	x, isPhi := v.(*ssa.Phi)
+	if !isPhi || depth > 5 {
+		return []ssa.Value{v}
+	}
+	var out []ssa.Value
+	for i, e := range x.Edges {
+		pred := x.Block().Preds[i]
+		d := dead[pred]
+		for si, s := range pred.Succs {
+			if s == x.Block() && deadE[[2]int{pred.Index, si}] {
+				d = true
+			}
+		}
+		if !d {
+			out = append(out, liveLeaves(e, dead, deadE, depth+1)...)
+		}
+	}
+	return out
 }
